@@ -22,8 +22,8 @@ BOPS = {"add": "+", "sub": "-", "mul": "*", "and": "&", "or": "|", "xor": "^", "
 OMP6 = ["add", "mul", "sub", "and", "xor", "or"]
 
 # proposed repairs (proposed_fixes/C37-*.diff): after applying one, flip its default to "1"
-FX = {"ops": os.environ.get("C37_FX_OPS", "0"), "nest": os.environ.get("C37_FX_NEST", "0"),
-      "rhs": os.environ.get("C37_FX_RHS", "0")}
+FX = {"ops": os.environ.get("C37_FX_OPS", "1"), "nest": os.environ.get("C37_FX_NEST", "1"),
+      "rhs": os.environ.get("C37_FX_RHS", "1")}
 FXBITS = FX["ops"] + FX["nest"] + FX["rhs"]
 FX_OF_TAG = {"nonomp": "ops", "nestedop": "nest", "readrhs": "rhs"}
 
